@@ -19,4 +19,4 @@ import importlib; m = importlib.import_module('checks.$c')
 if hasattr(m, 'pregen'): m.pregen()
 " >/dev/null 2>&1; done
 H=$(python3 -c "import hashlib,sys; print(hashlib.sha1(sys.argv[1].encode()).hexdigest()[:8])" $S)
-rm -rf $S /verif/.build/cgns_$H /verif/.build/h_$H
+rm -rf $S /verif/.build/cgns_$H /verif/.build/h_$H /verif/.build/cgns_f_$H
